@@ -16,7 +16,7 @@ from ..model import AnalysisError
 from ..terms import T, walk_terms
 from ..absint import AV, TOP, cav
 from ..walk import (data_derives, ret_alts, call_parts, call_arg, is_call_to, const_val, NOVAL, strip_views, unwrap_gamma, callee_func,
-                    callee_name, axis_uses, norm_stmt, newaxis_insertions, loop_role)
+                    callee_name, axis_uses, norm_stmt, newaxis_insertions, loop_role, is_full_slice, last_axis_product_sum)
 from .. import ein
 from . import c11
 
@@ -220,6 +220,55 @@ def check_ell(run, A):
     acc_ax = const_val(call_arg(cps[0], 1, 'axis'))
     run.check(acc_ax == -2, 'R-ELL', 'phase_correction: phase is accumulated along the frequency axis', fn.loc(cps[0].node), 'axis=-2',
               f'accumulation over axis {acc_ax!r}; the documented layout is (..., bins, sensors), the frequency axis is -2', construct=f'R-ELL::{q}::cumprod-axis')
+    # FORM: bin f is rotated by exp(+j angle(w_f^H w_{f-1})) (accumulated over f), w_f^H w_{f-1} = sum over the SENSOR axis of conj(w[..., 1:, :]) * w[..., :-1, :]
+    def bin_slice(t):
+        t = strip_views(t)
+        if t.op != 'sub' or t.args[1].op != 'tuple':
+            return None
+        items = t.args[1].args[0]
+        if len(items) < 2 or not is_full_slice(items[-1]) or items[-2].op != 'slice':
+            return None
+        lo, hi, st = (const_val(x) for x in items[-2].args)
+        if st is not None:
+            return None
+        return 'f' if (lo == 1 and hi is None) else 'f-1' if (lo is None and hi == -1) else None
+    angles = [e.term for e in g.events if e.kind == 'call' and is_call_to(e.term, 'numpy.angle')]
+    okf, why = False, 'np.angle(...) of the inter-bin inner product not found'
+    if len(angles) == 1:
+        inner = strip_views(call_arg(angles[0], 0))
+        lp = last_axis_product_sum(inner)          # np.sum(a * b, -1[, keepdims]) / (a * b).sum(-1)[..., None] / einsum('...d,...d->...') / '...fd,...fd->...f'
+        prod = T('binop', ('Mult', lp[0], lp[1])) if lp is not None else None
+        why = 'the inner product is not a sum over the sensor axis (-1) of a product of two bin slices'
+        if prod is not None and prod.op == 'binop' and prod.args[0] == 'Mult':
+            fa, fb = strip_views(prod.args[1]), strip_views(prod.args[2])
+            ca, cb = is_call_to(fa, 'numpy.conj'), is_call_to(fb, 'numpy.conj')
+            sa = bin_slice(call_arg(fa, 0) if ca else fa) or (bin_slice(fa) if not ca else None)
+            sb = bin_slice(call_arg(fb, 0) if cb else fb) or (bin_slice(fb) if not cb else None)
+            # conj applied before or after slicing
+            if sa is None and fa.op == 'sub' and is_call_to(strip_views(fa.args[0]), 'numpy.conj'):
+                ca, sa = True, bin_slice(fa)
+            if sb is None and fb.op == 'sub' and is_call_to(strip_views(fb.args[0]), 'numpy.conj'):
+                cb, sb = True, bin_slice(fb)
+            why = f'factors are bin slices {sa!r} / {sb!r} with conjugation {ca} / {cb}: need conj on exactly one of w[..., 1:, :] and w[..., :-1, :]'
+            if {sa, sb} == {'f', 'f-1'} and ca != cb:
+                conj_on = sa if ca else sb
+                # sign of the rotation: exp(+j angle) when the conjugate is on bin f, exp(-j angle) when it is on bin f-1
+                sign = None
+                for x in [y for r_ in [g.ret] + [e.term for e in g.events if e.term is not None] for y in walk_terms(r_)]:
+                    if x.op == 'binop' and x.args[0] == 'Mult':
+                        for u, v in ((x.args[1], x.args[2]), (x.args[2], x.args[1])):
+                            cv = const_val(strip_views(u))
+                            if isinstance(cv, complex) and cv.real == 0 and abs(cv.imag) == 1 and any(y is angles[0] for y in walk_terms(v, into_mu=False)):
+                                neg = sum(1 for y in walk_terms(v, into_mu=False) if y.op == 'unop' and y.args[0] == 'USub') % 2
+                                sign = cv.imag * (-1 if neg else 1)
+                why = f'conjugate on bin {conj_on}, rotation exp({sign}j * angle): the pair must be (f, +1) or (f-1, -1)'
+                okf = sign is not None and ((conj_on == 'f' and sign == 1) or (conj_on == 'f-1' and sign == -1))
+    run.check(okf, 'FORM', 'phase_correction: bin f is rotated by the phase of w_f^H w_{f-1} (sum over sensors)', fn.loc(angles[0].node if angles else None), '', why,
+              construct=f'FORM::{q}::inter-bin-phase')
+    okacc = any(call_parts(t)[0] in ('numpy.cumprod', 'method:cumprod') and any(is_call_to(y, 'numpy.exp') for y in walk_terms(call_arg(t, 0), into_mu=False)) for t in cps) or \
+        any(call_parts(t)[0] in ('numpy.cumsum', 'method:cumsum') and not any(is_call_to(y, 'numpy.exp') for y in walk_terms(call_arg(t, 0), into_mu=False)) for t in cps)
+    run.check(okacc, 'FORM', 'phase_correction: rotations accumulate as a product of phasors (or a sum of angles)', fn.loc(cps[0].node), '',
+              'the per-bin phasors exp(j angle) are accumulated with a cumulative SUM (or angles with a cumulative product)', construct=f'FORM::{q}::accumulation')
     ev_st = [e for e in g.events if e.kind == 'inplace']
     okc = bool(ev_st) and all(is_call_to(strip_views(e.data['target']), 'numpy.array') or is_call_to(strip_views(strip_views(e.data['target'])), 'numpy.array') or
                               any(is_call_to(x, 'numpy.array', 'numpy.copy', 'method:copy') for x in walk_terms(e.data['target'])) for e in ev_st)
